@@ -1,4 +1,5 @@
 import contextlib
+import unicodedata
 from collections.abc import Mapping
 from dataclasses import replace
 from keyword import iskeyword
@@ -196,7 +197,11 @@ class BuiltinModelDumperGen(ModelDumperGen):
     def _gen_access_expr(self, namespace: CascadeNamespace, field: OutputField) -> str:
         accessor = field.accessor
         if isinstance(accessor, DescriptorAccessor):
-            if accessor.attr_name.isidentifier() and not iskeyword(accessor.attr_name):
+            if (
+                accessor.attr_name.isidentifier()
+                and not iskeyword(accessor.attr_name)
+                and accessor.attr_name == unicodedata.normalize("NFKC", accessor.attr_name)
+            ):
                 return f"data.{accessor.attr_name}"
             return f"getattr(data, {accessor.attr_name!r})"
         if isinstance(accessor, ItemAccessor):
